@@ -5,7 +5,10 @@
    SYSSHIM_KILL=<call>:<path-substring>:<nth> : _exit(137) immediately BEFORE that call (crash point)
    SYSSHIM_PASSWD=<file>: getpwnam() is served from "name:uid:gid:home" lines (NULL if absent)
    SYSSHIM_GROUP=<file> : getgrnam() is served from "name:gid" lines
-   SYSSHIM_LOGWRITE=<fd>: also log write() calls on that descriptor (first 64 bytes, hex)
+   SYSSHIM_LOGWRITE=<fd>|all: also log write() calls on that descriptor / on every descriptor (first 64 bytes, hex);
+                          write() and read() take fault rules with the pseudo-path "fd<N>"
+   SYSSHIM_SIGNAL=<call>:<path-substring>:<nth>:<signo> : raise(signo) right AFTER that call returned
+   also interposed (logged, faultable): ftruncate (path fd<N>), alarm (logged only)
    The shim changes nothing unless told to. */
 #define _GNU_SOURCE
 #include <dlfcn.h>
@@ -26,6 +29,18 @@ static int logfd = -2;
 struct rule { char call[16]; char sub[128]; int err; int nth; int seen; };
 static struct rule rules[32]; static int nrules = -1;
 static struct rule krule; static int have_k = -1;
+static struct rule srule; static int have_s = -1;
+#include <signal.h>
+static void after(const char *call, const char *path) {
+  if (have_s < 0) {
+    const char *e = getenv("SYSSHIM_SIGNAL"); have_s = 0;
+    if (e) { char buf[256]; char *b, *c, *d; strncpy(buf, e, sizeof buf - 1); buf[sizeof buf - 1] = 0;
+      b = strchr(buf, ':'); if (b) { *b++ = 0; c = strchr(b, ':'); if (c) { *c++ = 0; d = strchr(c, ':'); if (d) { *d++ = 0;
+        strncpy(srule.call, buf, 15); strncpy(srule.sub, b, 127); srule.nth = atoi(c); srule.err = atoi(d); srule.seen = 0; have_s = 1; } } } }
+  }
+  if (have_s == 1 && !strcmp(srule.call, call) && strstr(path ? path : "", srule.sub))
+    if (++srule.seen == srule.nth) raise(srule.err);
+}
 
 static void init_rules(void) {
   const char *e; nrules = 0;
@@ -87,7 +102,7 @@ int unlink(const char *p) { REAL(unlink); int e = fault("unlink", p), r;
   r = real(p); { int se = errno; slog("unlink %s = %d %d", p, r, r ? se : 0); errno = se; } return r; }
 int link(const char *a, const char *b) { REAL(link); int e = fault("link", b), r;
   if (e) { errno = e; slog("link %s %s = -1 %d INJECTED", a, b, e); return -1; }
-  r = real(a, b); { int se = errno; slog("link %s %s = %d %d", a, b, r, r ? se : 0); errno = se; } return r; }
+  r = real(a, b); { int se = errno; slog("link %s %s = %d %d", a, b, r, r ? se : 0); errno = se; } after("link", b); return r; }
 int rename(const char *a, const char *b) { REAL(rename); int e = fault("rename", b), r;
   if (e) { errno = e; slog("rename %s %s = -1 %d INJECTED", a, b, e); return -1; }
   r = real(a, b); { int se = errno; slog("rename %s %s = %d %d", a, b, r, r ? se : 0); errno = se; } return r; }
@@ -103,7 +118,14 @@ int open64(const char *p, int fl, ...) { REAL(open64); mode_t m = 0; int e, r;
   r = real(p, fl, m); { int se = errno; slog("open %s %o = %d %d", p, fl, r, r < 0 ? se : 0); errno = se; } return r; }
 int fsync(int fd) { REAL(fsync); char nm[32]; int e, r; snprintf(nm, sizeof nm, "fd%d", fd); e = fault("fsync", nm);
   if (e) { errno = e; slog("fsync %d = -1 %d INJECTED", fd, e); return -1; }
-  r = real(fd); { int se = errno; slog("fsync %d = %d %d", fd, r, r ? se : 0); errno = se; } return r; }
+  r = real(fd); { int se = errno; slog("fsync %d = %d %d", fd, r, r ? se : 0); errno = se; } after("fsync", nm); return r; }
+int ftruncate(int fd, off_t len) { REAL(ftruncate); char nm[32]; int e, r; snprintf(nm, sizeof nm, "fd%d", fd); e = fault("ftruncate", nm);
+  if (e) { errno = e; slog("ftruncate %d %ld = -1 %d INJECTED", fd, (long) len, e); return -1; }
+  r = real(fd, len); { int se = errno; slog("ftruncate %d %ld = %d %d", fd, (long) len, r, r ? se : 0); errno = se; } return r; }
+unsigned int alarm(unsigned int secs) { REAL(alarm); slog("alarm %u", secs); return real(secs); }
+ssize_t read(int fd, void *buf, size_t n) { REAL(read); char nm[32]; int e; snprintf(nm, sizeof nm, "fd%d", fd);
+  if (nrules > 0 || nrules < 0 || have_k) { e = fault("read", nm); if (e) { errno = e; slog("read %d = -1 %d INJECTED", fd, e); return -1; } }
+  return real(fd, buf, n); }
 int utimes(const char *p, const struct timeval tv[2]) { REAL(utimes); int e = fault("utimes", p), r;
   if (e) { errno = e; slog("utimes %s = -1 %d INJECTED", p, e); return -1; }
   r = real(p, tv); { int se = errno; slog("utimes %s %ld = %d %d", p, tv ? (long) tv[1].tv_sec : -1L, r, r ? se : 0); errno = se; } return r; }
@@ -134,11 +156,15 @@ struct group *getgrnam(const char *name) {
   fclose(fp); return 0;
 }
 ssize_t write(int fd, const void *buf, size_t n) {
-  REAL(write); static int wfd = -2; ssize_t r;
-  if (wfd == -2) { const char *e = getenv("SYSSHIM_LOGWRITE"); wfd = e ? atoi(e) : -1; }
+  REAL(write); static int wfd = -2; ssize_t r; char nm[32]; int e;
+  if (wfd == -2) { const char *x = getenv("SYSSHIM_LOGWRITE"); wfd = x ? (!strcmp(x, "all") ? -3 : atoi(x)) : -1; }
+  if (fd != logfd && (nrules != 0 || have_k != 0)) {
+    snprintf(nm, sizeof nm, "fd%d", fd); e = fault("write", nm);
+    if (e) { errno = e; if (wfd != -1) slog("write %d %zu - = -1 %d INJECTED", fd, n, e); return -1; }
+  }
   r = real(fd, buf, n);
-  if (fd == wfd && fd != logfd) { char hex[130]; size_t i, m = n < 64 ? n : 64; int se = errno;
+  if ((fd == wfd || wfd == -3) && fd != logfd) { char hex[130]; size_t i, m = n < 64 ? n : 64; int se = errno;
     for (i = 0; i < m; i++) sprintf(hex + 2 * i, "%02x", ((const unsigned char *) buf)[i]);
-    hex[2 * m] = 0; slog("write %d %zu %s = %zd", fd, n, hex, r); errno = se; }
+    hex[2 * m] = 0; if (!m) strcpy(hex, "-"); slog("write %d %zu %s = %zd %d", fd, n, hex, r, r < 0 ? se : 0); errno = se; }
   return r;
 }
